@@ -345,7 +345,6 @@ Next == \/ \E h \in AllHosts : Contact(h)
 Spec == Init /\ [][Next]_vars
 
 (* ------------------------------------------ properties ---------------------------------------- *)
-Addr(a) == Len(a) = 2
 TypeOK ==
   /\ \A h \in Hosts : /\ Cardinality({r.k : r \in peers[h]}) = Cardinality(peers[h])
                       /\ Cardinality({x.a : x \in known[h]}) = Cardinality(known[h])
